@@ -978,7 +978,10 @@ def shrink(c, drv, kind, key):
 # ------------------------------------------------------------------ case generators
 
 A_CORE = ['a', 'b', ' ', ',']
-A_UNI = ['é', 'É', 'ß', 'Д', 'д', 'İ', 'ŉ', 'µ', 'A', 'Z', 'z']
+A_UNI = ['é', 'É', 'ß', 'Д', 'д', 'İ', 'ŉ', 'µ', 'A', 'Z', 'z',
+         # strings that are NOT in a Unicode normal form: base letter + combining mark, conjoining Hangul jamo - a string is
+         # its code points; nothing on the way to a function may compose or decompose them
+         'e', '\u0301', '\u0327', '\u1100', '\u1161']
 A_WS = ['\t', '\n', '\u00a0', '\u2003', '\u1680', '\x1c', '\x0b']
 
 
